@@ -282,6 +282,7 @@ pub fn xpath_op(rest: &[&str], a: &Args) -> Option<Outcome> {
         Err(_) => "Err".to_string(),
     };
     match rest {
+        ["query", kind] => xpath_query_op(kind, a),
         ["func", name] => {
             let observed = guard(|| {
                 let mut c = Context::default();
@@ -420,6 +421,86 @@ pub fn xpath_op(rest: &[&str], a: &Args) -> Option<Outcome> {
     }
 }
 
+// ------------------------------------------------------------------------------------------------
+// whole queries through xml_xpath::query on a real parsed document (C06 no panic, C07 ordered sets, C19 context reuse)
+
+fn show_query(doc: &xml_dom::XmlDocument, q: &str, c: &mut Context) -> String {
+    match xml_xpath::query(doc.clone(), q, c) {
+        Ok(Value::Node(ns)) => format!("Node(order keys {:?})", ns.iter().map(|n| n.order()).collect::<Vec<_>>()),
+        Ok(v) => show_value(&v),
+        Err(e) => format!("Err({})", e),
+    }
+}
+
+pub const QUERY_DOCS: [&str; 3] = [
+    "<r x='1' y='2'><a/><b><c/><d/></b><?p d?><!--k--><e>t</e></r>",
+    "<r xmlns:n='u'><n:a/><b n:z='1'><n:a/></b></r>",
+    "<r/>",
+];
+
+pub const QUERIES: [&str; 40] = [
+    "//c | //a", "//a | //c", "//e | //b | //a", "(//d | //a)[1]", "//b/* | //b", "//@y | //@x", "//a | //a", "/r/* | /r/b/*",
+    "//d/preceding::* | //e", "//e/ancestor::* | //a", "//c/.. | //a/..", "//*/.. | //b/c",
+    "$x", "/r/@x/..", "/..", "parent::node()", "/r/@x/parent::node()", "//processing-instruction('p')", "id('a')", "/r/a/..",
+    "//@*/..", "/r/a/parent::*", "/parent::node()", "//text()/..", "//comment()/parent::node()", "//namespace::*/..",
+    "position()", "last()", "/r/*[position() = last()]", "/r/*[q:x]", "/r/*[. = //zz:a]", "/r/*[zz:f()]", "//*[nosuch()]",
+    "(//*)[nosuch(1)]", "(/r/*)[q:x]", "/r/b[c[q:x]]", "/r/*[1][q:x]", "//b/*[last()][zz:a]", "count(//*[q:x])", "/r/*[$v]",
+];
+
+pub fn xpath_query_op(kind: &str, a: &Args) -> Option<Outcome> {
+    let docs = a.get("doc").cloned().unwrap_or_else(|| QUERY_DOCS[0].to_string());
+    let (_, doc) = xml_dom::XmlDocument::from_raw(docs.as_str()).ok()?;
+    let q = a.get("query").cloned().unwrap_or_default();
+    match kind {
+        // C19: `second` on a context that already served `first` must answer as on a fresh context
+        "ctx_reuse" => {
+            let second = a.get("second").cloned().unwrap_or_else(|| "concat(position(), '/', last())".to_string());
+            let observed = guard(|| {
+                let mut c = Context::default();
+                let _ = std::panic::catch_unwind(std::panic::AssertUnwindSafe(|| {
+                    let _ = xml_xpath::query(doc.clone(), q.as_str(), &mut c);
+                }));
+                show_query(&doc, second.as_str(), &mut c)
+            });
+            let expected = guard(|| show_query(&doc, second.as_str(), &mut Context::default()));
+            Some(Outcome { observed, expected, note: format!("first query: {}", q) })
+        }
+        // C07: a node-set result lists strictly increasing document-order keys
+        "order" => {
+            let mut keys: Option<Vec<usize>> = None;
+            let observed = guard(|| match xml_xpath::query(doc.clone(), q.as_str(), &mut Context::default()) {
+                Ok(Value::Node(ns)) => {
+                    let k: Vec<usize> = ns.iter().map(|n| n.order()).collect();
+                    let s = format!("Node(order keys {:?})", k);
+                    keys = Some(k);
+                    s
+                }
+                Ok(v) => show_value(&v),
+                Err(e) => format!("Err({})", e),
+            });
+            let expected = match keys {
+                Some(mut k) => {
+                    k.sort();
+                    k.dedup();
+                    format!("Node(order keys {:?})", k)
+                }
+                None => observed.clone(),
+            };
+            Some(Outcome { observed, expected, note: "expected = the same keys, strictly increasing".into() })
+        }
+        // C06: a value or an error, never a panic
+        "no_panic" => {
+            let r = guard(|| {
+                let _ = xml_xpath::query(doc.clone(), q.as_str(), &mut Context::default());
+                "value-or-error".to_string()
+            });
+            let note = if r.starts_with("PANIC") { format!("panicked at {}", crate::LAST_PANIC_AT.lock().unwrap()) } else { String::new() };
+            Some(Outcome { observed: r, expected: "value-or-error".into(), note })
+        }
+        _ => None,
+    }
+}
+
 pub fn f64_grid() -> Vec<String> {
     let mut v: Vec<String> = vec![];
     for x in [
@@ -438,6 +519,13 @@ pub fn xpath_grid(rest: &[&str]) -> Vec<Args> {
     let bools = ["b:true", "b:false"];
     let mk = |pairs: &[(&str, &str)]| -> Args { pairs.iter().map(|(k, v)| (k.to_string(), v.to_string())).collect() };
     match rest {
+        ["query", _] => {
+            for d in QUERY_DOCS {
+                for q in QUERIES {
+                    out.push(mk(&[("doc", d), ("query", q)]));
+                }
+            }
+        }
         ["func", "substring"] => {
             for s in ["s:", "s:a", "s:ab", "s:12345", "s:a\u{e9}\u{1d4b3} b"] {
                 for x in &nums {
